@@ -135,7 +135,58 @@ def native_stage(chk):
     return nat
 
 
+def cli_stage(chk):
+    """the hexsim EXECUTABLE (hexsim.cpp main) under different host environments (heap perturbation, environment size, eager
+    binding -- they change what the stack and heap hold when the Processor is built): output and status of (1) a program exiting
+    with a word it never wrote at the top of memory, (2) an endless loop under --max-cycles, (3) a stdin echo with and without -t"""
+    import subprocess
+    exe = os.path.join(chk.out, "hexsim_cli")
+    hv.build_native(os.path.join(hv.REPO, "hexsim.cpp"), exe, extra=[os.path.join(hv.REPO, "hex.cpp")], opt="-O1", hooks=False)
+    d = os.path.join(chk.out, "scratch", "cli")
+    os.makedirs(d, exist_ok=True)
+    def image(name, code):
+        code = bytes(code) + b"\0" * (-len(code) % 4)
+        open(os.path.join(d, name), "wb").write((len(code) // 4).to_bytes(4, "little") + code)
+    # (1) sp = 199990: exit(mem[199992]), a word near the top of memory that nothing wrote
+    image("top.bin", [0x97, 0, 0, 0] + list((199990).to_bytes(4, "little")) + [0x30, 0xD3])
+    # (2) BR -2 forever
+    image("loop.bin", [0xFF, 0x9E])
+    # (3) read a byte from stdin, exit with it
+    image("echo.bin", [0x97, 0, 0, 0, 100, 0, 0, 0, 0x11, 0x30, 0x82, 0x32, 0xD3, 0x01, 0x61, 0x11, 0x82, 0x30, 0xD3])
+    envs = [{}, {"MALLOC_PERTURB_": "165"}, {"LD_BIND_NOW": "1"}, {"HEX_PAD": "x" * 60000}, {"MALLOC_PERTURB_": "90", "LD_BIND_NOW": "1", "HEX_PAD": "y" * 9000}]
+    def run(args, inp=b""):
+        res = []
+        for e in envs:
+            env = dict(os.environ); env.update(e)
+            try:
+                r = subprocess.run([exe] + args, cwd=d, input=inp, capture_output=True, timeout=60, env=env)
+                res.append((r.returncode, r.stdout if "-t" not in args else b""))
+            except subprocess.TimeoutExpired:
+                res.append((-9, b"timeout"))
+        return res
+    why = ""
+    r1 = run(["top.bin"])
+    r2 = run(["loop.bin", "--max-cycles", "50"])
+    r3 = run(["echo.bin"], b"Z")
+    r3t = run(["echo.bin", "-t"], b"Z")
+    if len(set(r1)) != 1 or r1[0][0] != 0:
+        why = "exit status of a program returning a never-written word differs with the host environment or is not 0: %s" % [x[0] for x in r1]
+    elif len(set(r2)) != 1 or r2[0][0] < 0:
+        why = "status of a run cut short by --max-cycles differs with the host environment (or the run does not end): %s" % [x[0] for x in r2]
+    elif len(set(r3)) != 1 or r3[0][0] != ord("Z"):
+        why = "status of a program exiting with its input byte: %s" % [x[0] for x in r3]
+    elif [x[0] for x in r3t] != [x[0] for x in r3]:
+        why = "-t changes the exit status: %s vs %s" % ([x[0] for x in r3t], [x[0] for x in r3])
+    rec = {"stage": "hexsim executable under 5 host environments (MALLOC_PERTURB_, LD_BIND_NOW, environment size): never-written word at the top of memory, cycle-limited endless loop, stdin echo with and without -t", "ok": not why, "why": why}
+    chk.native.append(rec)
+    if why:
+        p = chk.replay_path("native-cli")
+        json.dump({"property": PID, "obligation": "hexsim executable under different host environments", "what": why, "how": "programs in %s; environments %s" % (d, envs)}, open(p, "w"), indent=1)
+        chk.add_violation("native-cli", p, "hexsim executable: " + why, True)
+
+
 def native_only(chk):
+    cli_stage(chk)
     nat = native_stage(chk)
     if nat.get("ok") is False:
         p = chk.replay_path("native")
@@ -182,6 +233,7 @@ def main(chk, replay_file):
     chk.jobs = jobs
     hv.run_jobs(jobs, chk.out)
     nat = native_stage(chk)
+    cli_stage(chk)
     for j in jobs:
         r = j.result
         if j.kind != "proof" or r["status"] != "failed" or j.role != "property":
